@@ -1,0 +1,7 @@
+//go:build verif
+
+package util
+
+// VerifInputLen reports how many submitted items sit in the hand-off channel between Do and the
+// queuing loop. Verification hook (add-only, compiled only with -tags verif).
+func (wg *WorkerGroup[T]) VerifInputLen() int { return len(wg.input) }
